@@ -415,6 +415,185 @@ fn project(case: &Value) -> Value {
     }
 }
 
+/// The three project shapes of the hash-extreme search: the candidate name is the command name,
+/// the name of a returned serde struct, or the name of an emitted event
+fn hash_src(kind: &str, name: &str) -> String {
+    match kind {
+        "struct" => format!("#[derive(serde::Serialize)]\npub struct {name} {{ pub a: u8 }}\n#[tauri::command]\npub fn get() -> {name} {{ todo!() }}\n"),
+        "event" => format!("#[tauri::command]\npub fn c(app: tauri::AppHandle) {{ app.emit(\"{name}\", 1u8).ok(); }}\n"),
+        _ => format!("#[tauri::command]\npub fn {name}() {{}}\n"),
+    }
+}
+fn hash_name(kind: &str, i: u64) -> String {
+    match kind {
+        "struct" => format!("Rec{i}"),
+        "event" => format!("ev-{i}"),
+        _ => format!("cmd_{i}"),
+    }
+}
+type HashState = (Vec<tauri_typegen::CommandInfo>, std::collections::HashMap<String, tauri_typegen::StructInfo>, Vec<tauri_typegen::EventInfo>);
+/// what the real analysis records for the project (the state GenerationCache hashes)
+fn hash_state(dir: &str, kind: &str, name: &str) -> Result<HashState, String> {
+    let src = format!("{dir}/src");
+    std::fs::create_dir_all(&src).map_err(|e| e.to_string())?;
+    std::fs::write(format!("{src}/lib.rs"), hash_src(kind, name)).map_err(|e| e.to_string())?;
+    let mut a = CommandAnalyzer::new();
+    let cmds = a.analyze_project(&src).map_err(|e| e.to_string())?;
+    let structs = a.get_discovered_structs().clone();
+    // EventInfo is not Clone: rebuilt field by field
+    let events = a
+        .get_discovered_events()
+        .iter()
+        .map(|e| tauri_typegen::EventInfo {
+            event_name: e.event_name.clone(),
+            payload_type: e.payload_type.clone(),
+            payload_type_structure: e.payload_type_structure.clone(),
+            file_path: e.file_path.clone(),
+            line_number: e.line_number,
+        })
+        .collect();
+    Ok((cmds, structs, events))
+}
+fn hash_cfg(dir: &str, validation: &str) -> GenerateConfig {
+    let mut cfg = GenerateConfig::default();
+    cfg.project_path = format!("{dir}/src");
+    cfg.output_path = format!("{dir}/out");
+    cfg.validation_library = validation.to_string();
+    cfg
+}
+/// the five hash texts of the cache the tool would write for this state (public API: new, with_events, Serialize)
+fn hash_texts(st: &HashState, cfg: &GenerateConfig) -> Option<[String; 5]> {
+    let c = tauri_typegen::build::GenerationCache::new(&st.0, &st.1, cfg).ok()?.with_events(&st.2).ok()?;
+    let v = serde_json::to_value(&c).ok()?;
+    let g = |k: &str| v[k].as_str().unwrap_or("").to_string();
+    Some([g("combined_hash"), g("commands_hash"), g("structs_hash"), g("events_hash"), g("config_hash")])
+}
+fn hash_rename(st: &mut HashState, kind: &str, name: &str) {
+    match kind {
+        "struct" => {
+            let old: Vec<String> = st.1.keys().cloned().collect();
+            if let Some(mut si) = old.first().and_then(|k| st.1.remove(k)) {
+                si.name = name.to_string();
+                st.1.insert(name.to_string(), si);
+            }
+            if let Some(c) = st.0.get_mut(0) {
+                c.return_type = name.to_string();
+            }
+        }
+        "event" => {
+            if let Some(e) = st.2.get_mut(0) {
+                e.event_name = name.to_string();
+            }
+        }
+        _ => {
+            if let Some(c) = st.0.get_mut(0) {
+                c.name = name.to_string();
+            }
+        }
+    }
+}
+
+/// case {"id", "dir", "kind": command|struct|event, "validation", "table": [names], "maxlen", "want", "max_tries", "threads"}
+/// -> {"verified": [{name, hashes}], "stale": [names], "found": [{name, hashes}], "by_length": {len: name}, "tries"}:
+/// project states whose cache hash TEXT is extreme (few hex digits = leading zero nibbles). The table entries are
+/// recomputed through the real analysis; when fewer than `want` still have a hash text of at most `maxlen` digits,
+/// a counter is searched (state of the template with the name replaced, then confirmed through the real analysis)
+fn hashsearch(case: &Value) -> Value {
+    let dir = case["dir"].as_str().unwrap().to_string();
+    let kind = case["kind"].as_str().unwrap_or("command").to_string();
+    let validation = case["validation"].as_str().unwrap_or("none").to_string();
+    let maxlen = case["maxlen"].as_u64().unwrap_or(11) as usize;
+    let want = case["want"].as_u64().unwrap_or(2) as usize;
+    let max_tries = case["max_tries"].as_u64().unwrap_or(6_000_000);
+    let threads = case["threads"].as_u64().unwrap_or(4).max(1);
+    let cfg = hash_cfg(&dir, &validation);
+    let short = |h: &[String; 5]| h.iter().any(|t| !t.is_empty() && t.len() <= maxlen);
+    let entry = |name: &str, h: &[String; 5]| json!({"name": name, "combined": h[0], "commands": h[1], "structs": h[2], "events": h[3], "config": h[4]});
+    let mut verified = vec![];
+    let mut stale = vec![];
+    let mut n_combined = 0usize;
+    for name in case["table"].as_array().cloned().unwrap_or_default() {
+        let name = name.as_str().unwrap_or("").to_string();
+        match hash_state(&dir, &kind, &name).ok().and_then(|st| hash_texts(&st, &cfg)) {
+            Some(h) if short(&h) => {
+                if h[0].len() <= maxlen {
+                    n_combined += 1;
+                }
+                verified.push(entry(&name, &h));
+            }
+            _ => stale.push(json!(name)),
+        }
+    }
+    let found = std::sync::Mutex::new(Vec::<(String, [String; 5])>::new());
+    let by_len = std::sync::Mutex::new(std::collections::BTreeMap::<usize, String>::new());
+    let stop = std::sync::atomic::AtomicBool::new(false);
+    let tries = std::sync::atomic::AtomicU64::new(0);
+    let need = want.saturating_sub(n_combined);
+    if need > 0 {
+        // the template is analysed once per thread; only the candidate name changes afterwards
+        if hash_state(&dir, &kind, &hash_name(&kind, 0)).is_err() {
+            return json!({"id": case["id"], "error": "template analysis failed"});
+        }
+        std::thread::scope(|s| {
+            for t in 0..threads {
+                let (dir, kind, cfg, found, by_len, stop, tries) = (&dir, &kind, &cfg, &found, &by_len, &stop, &tries);
+                s.spawn(move || {
+                    let src = format!("{dir}/src");
+                    let mut a = CommandAnalyzer::new();
+                    let Ok(cmds) = a.analyze_project(&src) else { return };
+                    let structs = a.get_discovered_structs().clone();
+                    let events = a
+                        .get_discovered_events()
+                        .iter()
+                        .map(|e| tauri_typegen::EventInfo {
+                            event_name: e.event_name.clone(),
+                            payload_type: e.payload_type.clone(),
+                            payload_type_structure: e.payload_type_structure.clone(),
+                            file_path: e.file_path.clone(),
+                            line_number: e.line_number,
+                        })
+                        .collect();
+                    let mut st: HashState = (cmds, structs, events);
+                    let mut i = 1 + t;
+                    let mut local = 0u64;
+                    while i <= max_tries && !stop.load(std::sync::atomic::Ordering::Relaxed) {
+                        let name = hash_name(kind, i);
+                        hash_rename(&mut st, kind, &name);
+                        if let Some(h) = hash_texts(&st, cfg) {
+                            if h[0].len() < 16 {
+                                let mut m = by_len.lock().unwrap();
+                                m.entry(h[0].len()).or_insert_with(|| name.clone());
+                            }
+                            if h.iter().any(|t| !t.is_empty() && t.len() <= maxlen) {
+                                let mut f = found.lock().unwrap();
+                                f.push((name.clone(), h.clone()));
+                                if f.iter().filter(|(_, h)| h[0].len() <= maxlen).count() >= need {
+                                    stop.store(true, std::sync::atomic::Ordering::Relaxed);
+                                }
+                            }
+                        }
+                        i += threads;
+                        local += 1;
+                    }
+                    tries.fetch_add(local, std::sync::atomic::Ordering::Relaxed);
+                });
+            }
+        });
+    }
+    // every name found on the renamed template is confirmed through the real analysis of its own source
+    let mut out_found = vec![];
+    let mut unconfirmed = vec![];
+    for (name, h) in found.into_inner().unwrap() {
+        match hash_state(&dir, &kind, &name).ok().and_then(|st| hash_texts(&st, &cfg)) {
+            Some(h2) if h2 == h => out_found.push(entry(&name, &h)),
+            _ => unconfirmed.push(json!(name)),
+        }
+    }
+    let bl: serde_json::Map<String, Value> = by_len.into_inner().unwrap().into_iter().map(|(k, v)| (k.to_string(), json!(v))).collect();
+    json!({"id": case["id"], "kind": kind, "validation": validation, "verified": verified, "stale": stale, "found": out_found,
+           "unconfirmed": unconfirmed, "by_length": bl, "tries": tries.load(std::sync::atomic::Ordering::Relaxed)})
+}
+
 /// `c15 oneshot <case.json> <result.json>`: one library-entry run in this process, result written to a file.
 /// Used where the entry point prints to stdout (verbose, cargo: directives) or may abort the process
 /// (stack overflow): the caller judges the exit status / signal of this child and reads the file.
@@ -481,5 +660,6 @@ fn main() {
         ("naming", naming),
         ("inventory", inventory),
         ("project", project),
+        ("hashsearch", hashsearch),
     ]);
 }
